@@ -191,6 +191,10 @@ def r89t(F):
         other = sorted({c[0].split("::")[-1] for c in src if c[0] != "param" and not c[0].endswith("::pop")} |
                        {"parameter" for c in src if c[0] == "param"})
         ok = from_pop and not other
+        # reported: a mark that comes from the iteration over the children / the start files (queue time).  Anything else that is
+        # not the popped entry is a source this rule does not look into
+        queued = [x for x in other if x in ("next", "parameter")]
+        need(ok or queued, "topo_sort_files: where the marked file comes from was not identified (%s)" % other[:2])
         r.inst("topo_sort_files:visited-mark#%d" % i, fn.where(b), ok,
                "the file marked is the one just taken off the stack" if ok else
                "a file is marked visited from %s, i.e. when it is queued, not when it is expanded: a file imported from two places is emitted too late" % (other or ["an unknown source"]))
